@@ -286,3 +286,28 @@ func LoadReplay(path string, into interface{}) error {
 	}
 	return json.Unmarshal(w.Input, into)
 }
+
+// TomlStr quotes a string for a TOML basic string (control bytes as \uXXXX).
+func TomlStr(s string) string {
+	var sb strings.Builder
+	sb.WriteByte('"')
+	for _, c := range []byte(s) {
+		switch {
+		case c == '"' || c == '\\':
+			sb.WriteByte('\\')
+			sb.WriteByte(c)
+		case c < 0x20 || c >= 0x7f:
+			fmt.Fprintf(&sb, "\\u%04X", c)
+		default:
+			sb.WriteByte(c)
+		}
+	}
+	sb.WriteByte('"')
+	return sb.String()
+}
+
+// Fatal aborts the harness itself (a harness problem, not an implementation failure).
+func Fatal(format string, a ...interface{}) {
+	fmt.Fprintf(os.Stderr, "HARNESS-ERROR: "+format+"\n", a...)
+	os.Exit(3)
+}
